@@ -44,7 +44,7 @@ pub fn history_for(cfg: &Cfg, h: u64, is_set: bool) -> (usize, (i32, i32), Vec<O
         Some(name) => profs.iter().filter(|p| name.split(',').any(|n| n == p.name)).collect(),
         None => profs.iter().collect(),
     };
-    let p = sel[(h % sel.len() as u64) as usize];
+    let p = sel[(crate::util::mix(h, 0x50524F46) % sel.len() as u64) as usize];
     let mut p = p.clone();
     if let Some(l) = cfg.get("maxlen") {
         if let Ok(l) = l.parse::<usize>() {
@@ -127,8 +127,11 @@ struct Node {
 }
 
 fn canon<C: OrdColl>(ex: &OrdExec<C>) -> Vec<u8> {
-    let s = ex.sut.snap().unwrap();
-    let mut c = snap::canonical(&s, |p, out| out.push(p.0 as u8));
+    // first byte: number of entries (used by the distinct-case rule); a list's state is its content
+    let mut c = vec![ex.model.len().min(255) as u8];
+    if let Some(s) = ex.sut.snap() {
+        c.extend(snap::canonical(&s, |p, out| out.push(p.0 as u8)));
+    }
     c.push(0xFD);
     for k in ex.model.keys() {
         c.push(*k as u8);
@@ -144,6 +147,20 @@ fn path_of(nodes: &[Node], mut i: u32) -> Vec<OOp> {
     }
     v.reverse();
     v
+}
+
+/// a private copy of the state: a hooked clone for the trees, a quiet replay of the path for the lists
+fn fork<C: OrdColl>(ex: &OrdExec<C>, nodes: &[Node], idx: u32, hint: usize, uni: (i32, i32)) -> OrdExec<C> {
+    if let Some(c) = ex.dup() {
+        return c;
+    }
+    let mut c = OrdExec::<C>::new(hint, uni);
+    let mut scratch = Report::new();
+    let quiet = OMon::default();
+    for op in path_of(nodes, idx) {
+        let _ = c.step(&op, &quiet, &mut scratch);
+    }
+    c
 }
 
 fn confirm<C: OrdColl>(hint: usize, uni: (i32, i32), ops: &[OOp], mon: &OMon) -> bool {
@@ -267,7 +284,7 @@ fn closure<C: OrdColl>(cfg: &Cfg, rep: &mut Report, u: i32, hint: usize, set_ind
                         continue;
                     }
                     ctx::set(hist, si as u64);
-                    let mut c = ex.dup().unwrap();
+                    let mut c = fork(ex, &nodes, idx, hint, uni);
                     let mut failed = false;
                     for (oi, op) in sq.iter().enumerate() {
                         transitions += 1;
@@ -312,7 +329,7 @@ fn closure<C: OrdColl>(cfg: &Cfg, rep: &mut Report, u: i32, hint: usize, set_ind
         rep.counters.max("max_closure_depth", depth);
         rep.counters.add(&format!("closure_states_{}_u{}_hint{}", C::NAME, u, hint), nodes.len() as u64);
         for cn in seen.keys() {
-            if cn.iter().filter(|&&b| b == snap::CANON_RED || b == snap::CANON_BLACK).count() >= 2 {
+            if cn[0] >= 2 {
                 rep.case(hash_bytes(cn) ^ ((u as u64) << 56) ^ hash_bytes(C::NAME.as_bytes()));
             }
         }
@@ -371,6 +388,8 @@ pub fn suite_ord_closure(cfg: &Cfg, rep: &mut Report) {
             "maptree" => closure::<MTree>(cfg, rep, u, hint, si as u64, emit),
             "settree" => closure::<STree>(cfg, rep, u, hint, si as u64, emit),
             "settree-int" => closure::<STreeInt>(cfg, rep, u, hint, si as u64, emit),
+            "maplist" => closure::<MList>(cfg, rep, u, hint, si as u64, emit),
+            "setlist" => closure::<SList>(cfg, rep, u, hint, si as u64, emit),
             "maptree-int" => closure::<MTreeInt>(cfg, rep, u, hint, si as u64, emit),
             _ => true,
         };
